@@ -245,6 +245,17 @@ def pair_list():
         b = copy.deepcopy(a)
         b["declarations"][0][dct] = {k: v}
         pairs.append(("sibling:%s" % k, a, [], b, [], False, lambda rel: "_n2" in rel))
+    # a class: the setting on the class declaration itself = the setting on a block around the class
+    def gadget():
+        return {"decl": "class Gadget", "declarations": [decl("Gadget()"), decl("~Gadget()"), decl("int size() const"),
+                                                         decl("void rename(const std::string & s)"), decl("int *data()"),
+                                                         decl("void put(int a)"), decl("void put(double a)")]}
+    for (dct, k, v) in settings + wide:
+        if dct != "options" or k in ("doxygen", "literalinclude"):
+            continue
+        a = lib([{"block": True, dct: {k: v}, "declarations": [gadget()]}, decl(F1)])
+        b = lib([dict(gadget(), **{dct: {k: v}}), decl(F1)])
+        pairs.append(("pushdown:class:%s" % k, a, [], b, [], False, None))
     # nested blocks: the inner block inherits from the outer one
     a = lib([{"block": True, "options": {"F_force_wrapper": True},
               "declarations": [{"block": True, "declarations": [decl(F1), decl(F2)]}]}])
